@@ -79,21 +79,32 @@ def gen_source(rng, ctx):
     elif r < 0.9 and ctx['samples']:
         text = rng.choice(ctx['samples'])
         hostile = any(ord(ch) > 127 for ch in text) or "\n" in text
-    else:
+    elif r < 0.95:
         text = "book('The magic\nof embedded\nnewlines', 'é', X) :- X = 'ü\n%', \\+ fail.\n"
+        hostile = True
+    else:
+        # atoms that start with a letter (printed verbatim by the debug output) and contain every character
+        # that ends a line somewhere: CR, CR LF, VT, FF, FS, GS, RS, NEL, LS, PS
+        seps = ['\r', '\r\n', '\x0b', '\x0c', '\x1c', '\x1d', '\x1e', '\x85', '\u2028', '\u2029', '\n']
+        a = ''.join(rng.choice(['red', 'x = 1', 'import os', ')', 'é']) + rng.choice(seps) for _ in range(rng.choice([1, 2, 3])))
+        text = "colour('a%sz').\nt(X) :- colour(X), X \\= 'b%sq'.\n" % (a, rng.choice(seps))
         hostile = True
     return text, hostile
 
 
+_PYLINES = re.compile(r'\r\n|\r|\n')
+
+
 def strip_comments(s):
-    return '\n'.join(l for l in s.split('\n') if not l.startswith('#'))
+    # lines as Python's tokenizer sees them: LF, CR LF and a lone CR all end a line (and so a comment)
+    return '\n'.join(l for l in _PYLINES.split(s) if not l.startswith('#'))
 
 
-def run_cli(tmp, flags, srcs, mode_out, mode_in, stdin_text=None):
+def run_cli(tmp, flags, srcs, mode_out, mode_in, stdin_text=None, hashseed='0'):
     env = dict(os.environ)
     env['PYTHONPATH'] = os.path.join(REPO, 'src')
     env['LANG'] = 'C.UTF-8'
-    env['PYTHONHASHSEED'] = '0'
+    env['PYTHONHASHSEED'] = hashseed
     args = [sys.executable, '-m', 'yldprolog.compiler'] + list(flags)
     outpath = None
     if mode_out == 'file':
@@ -157,7 +168,17 @@ def run_case(ctx, seed, idx, tier):
                 k = rng.randrange(16)
                 fl = [FLAGS[j] for j in range(4) if k >> j & 1]
                 runs.append((fl, mo, mi, paths))
+        # the same source named more than once must be compiled at every position
+        if rng.random() < 0.7:
+            k = rng.randrange(16)
+            fl = [FLAGS[j] for j in range(4) if k >> j & 1]
+            dup = list(paths) + [rng.choice(paths)]
+            if rng.random() < 0.5:
+                dup = [paths[-1]] + dup
+            runs.append((fl, rng.choice(['stdout', 'file']), 'files', dup))
         for fl, mo, mi, ps in runs:
+            if len(ps) != len(set(ps)):
+                c['duplicate_source_runs'] = c.get('duplicate_source_runs', 0) + 1
             if mi == 'stdin':
                 # standard input replaces the first source
                 srcs = ['-'] + ps[1:]
@@ -171,7 +192,7 @@ def run_case(ctx, seed, idx, tier):
             if len(ps) > 1:
                 c['multi_source_runs'] = c.get('multi_source_runs', 0) + 1
             try:
-                rc, out, err, raw_stdout = run_cli(tmp, fl, srcs, mo, mi, stdin_text)
+                rc, out, err, raw_stdout = run_cli(tmp, fl, srcs, mo, mi, stdin_text, hashseed=str(rng.choice([0, 1, 2, 3, 7, 11, 12345])))
             except subprocess.TimeoutExpired:
                 return {'c': c, 'nt': False, 'key': None, 'discard': 'cli_timeout'}
             c['cli_runs'] = c.get('cli_runs', 0) + 1
@@ -180,7 +201,7 @@ def run_case(ctx, seed, idx, tier):
             keys.append(h64((texts, fl, mo, mi)))
             if rc != 0:
                 return viol('nonzero_exit_for_valid_source', {'returncode': rc, 'stderr': err[-300:]}, fl, mo, mi)
-            want = ''.join(expected)
+            want = ''.join(expected[paths.index(p_)] for p_ in ps)
             if strip_comments(out) != strip_comments(want):
                 a, b = strip_comments(out).split('\n'), strip_comments(want).split('\n')
                 i = 0
